@@ -758,6 +758,21 @@ class KindAnalysis:
             for i, k in enumerate(args):
                 if k is not None and ((k[0] == "view" and k[2] == "perm") or (k[0] == "net" and k[1] == "perm")):
                     self.res.perm_pairs.append((e, i))
+                elif i < len(e.args):
+                    # a container built by iterating the view of a perm network (`vc = {n: [] for n in H.nodes}`) lists
+                    # the labels in view order too
+                    from .rules.common import _order_source
+
+                    if not hasattr(self, "_local_defs"):
+                        self._local_defs = {}
+                        for stn in ast.walk(self.fn.node):
+                            if isinstance(stn, ast.Assign) and len(stn.targets) == 1 and isinstance(stn.targets[0], ast.Name):
+                                self._local_defs.setdefault(stn.targets[0].id, []).append(stn.value)
+                    src = _order_source(e.args[i], self._local_defs)
+                    if src is not None and src[0] == "view":
+                        nk = env.get(src[1])
+                        if nk is not None and nk[0] == "net" and nk[1] == "perm":
+                            self.res.perm_pairs.append((e, i))
             return seq(tup(*[self.iter_elem(x, k, env) for x, k in zip(e.args, args)]))
         if name in ("list", "tuple", "sorted", "reversed") and e.args:
             if name == "sorted":
